@@ -24,8 +24,15 @@ void __assert_fail(const char *a, const char *f, unsigned int l, const char *fn)
 #define DTBUF 33                                     /* ADF data types may be up to 32 characters */
 
 static int g_normal_end = 0;
+static char g_last_error[64] = "";        /* start of the last message given to the error handler */
 static void at_exit_note(void)
-{ if (!g_normal_end) { printf("libexit\n"); fflush(stdout); } }
+{
+    if (!g_normal_end) {
+        /* which exit() of the library it was: cgi_malloc / cgi_realloc report "calloc failed .." / "realloc failed .." first */
+        if (!strncmp(g_last_error, "calloc failed", 13) || !strncmp(g_last_error, "realloc failed", 14)) printf("libexit-alloc\n");
+        printf("libexit\n"); fflush(stdout);
+    }
+}
 
 static void out(const char *fmt, ...);
 #include <stdarg.h>
@@ -553,7 +560,10 @@ static int g_depth = 0;
 static void ER(const char *what) { out("e %s", what); }
 
 static void warn_handler(int is_error, char *msg)
-{ if (!is_error) out("w %s", esc_msg(msg, 100)); }
+{
+    if (!is_error) out("w %s", esc_msg(msg, 100));
+    else { strncpy(g_last_error, msg ? msg : "", sizeof g_last_error - 1); g_last_error[sizeof g_last_error - 1] = 0; }
+}
 
 /* classify a return code: 1 = ok, 0 = not ok (prints `e what` only for CG_ERROR) */
 static int OKRC(int rc, const char *what)
